@@ -417,7 +417,7 @@ func (m *machine) solve(as []*Term, wantModel bool, timeout int) (string, map[st
 			fp = true
 		}
 	}
-	if fp && m.eng.solverKind == "z3" {
+	if fp && (m.eng.solverKind == "z3" || m.eng.solverKind == "z3-new") {
 		if m.solFP == nil {
 			m.solFP = newSolver("cvc5")
 			m.solFP.logw = m.sol.logw
